@@ -12,19 +12,6 @@ its known defects — and produces the observable trace `List Ev` plus one recor
 namespace SmtpV.Server
 open SmtpV SmtpV.Text SmtpV.Wire SmtpV.Reply SmtpV.Parse SmtpV.Xtext SmtpV.Spec
 
-/-- what a scripted `Data`/`LMTPData` call returns -/
-inductive DRet
-  | res (r : BRes)
-  | prop                          -- the reader's error if there was one (other than EOF), else nil
-deriving DecidableEq, Repr, Inhabited
-
-structure DataDec where
-  want : Option Nat := none       -- octets to read before returning (`none` = to EOF / error)
-  rsz : Nat := 4096               -- size of the buffer the backend reads with
-  ret : DRet := .res .ok
-  statuses : List (Bytes × BRes) := []   -- SetStatus calls (LMTPSession only), in order
-deriving Repr, Inhabited
-
 structure SaslStep where
   challenge : Bytes := []
   done : Bool := true
